@@ -69,7 +69,7 @@ StdEnvIn(id) ==
 \* user functions registered before the first compilation (they precede the built-ins) and
 \* after it; the E1a..E1d variants register three overloads of g in different orders:
 \*    g :: a -> num (=1)   g :: list[a] -> str (="L")   g :: num -> num (=3, monomorphic)
-BasePre == <<"U_T", "U_ID", "U_PICK", "U_H", "U_F", "U_LIF", "U_TWICE", "U_NEVER", "U_SECOND", "U_PAIR">>
+BasePre == <<"U_T", "U_ID", "U_PICK", "U_H", "U_F", "U_LIF", "U_TWICE", "U_NEVER", "U_SECOND", "U_PAIR", "U_HNP", "U_HN">>
 StdPre(id) == CASE id = "E1" -> BasePre
                 [] id = "E1a" -> BasePre \o <<"U_GPOLY", "U_GLIST", "U_GNUM">>
                 [] id = "E1b" -> BasePre \o <<"U_GLIST", "U_GPOLY">>
